@@ -440,6 +440,9 @@ def run(fx, chk, cg, tw):
                     continue
                 nabs += 1
                 psid = it.site_syms.get(("param", 2))
+                if "Mp4Sample" in body.locals[2]["ty"]:
+                    # the routine is handed the whole sample: the attribute is the field the table stores
+                    psid = st.cells.get((2, "deref", "." + {"ctts": "rendering_offset", "stss": "is_sync"}[f]))
                 iv = it.iv(st, psid) if psid is not None else (None, None)
                 if iv != (want, want):
                     bad = iv
